@@ -32,7 +32,7 @@ Prims == {<<n>> : n \in PrimNames}
 Ext(p) == <<"ext">> \o p
 Receivers == Prims \cup {<<"arr">>, <<"objdef2">>, <<"objdef1">>} \cup {Ext(<<p>>) : p \in {"null", "i2", "im1", "true", "arr", "objdef2"}}
              \cup {Ext(Ext(<<p>>)) : p \in {"i2", "arr", "false"}}
-ArgKinds == {<<"null">>, <<"true">>, <<"i0">>, <<"i2">>, <<"im1">>, <<"arr">>, Ext(<<"null">>)}
+ArgKinds == {<<"null">>, <<"true">>, <<"i0">>, <<"i2">>, <<"im1">>, <<"arr">>, Ext(<<"null">>), Ext(<<"i2">>), Ext(<<"true">>)}     \* (an object that extends a primitive is an object, not that primitive)
 ArgSeqs == {<<>>} \cup {<<a>> : a \in ArgKinds \cup {<<"false">>, <<"imax">>, <<"imin">>}} \cup {<<a, b>> : a \in ArgKinds, b \in {<<"i2">>, <<"null">>, <<"arr">>}}
            \cup {<< <<"i0">>, <<"i2">>, <<"i2">> >>, << <<"null">>, <<"null">>, <<"null">> >>}
 Prog(r, nm, as) ==
